@@ -8,8 +8,9 @@ EXTENDS MetricData, Json
 
 Trace == ndJsonDeserialize("trace.ndjson")
 VARIABLES l, types, before,
-          flushed   \* [metric -> Seq(block)]: every block handed to the real flusher in this history
-vars == <<types, before, flushed>>
+          flushed,  \* [metric -> Seq(block)]: every block handed to the real flusher in this history
+          srcSeen   \* <<target key, value>> of every source cell the Rollup events of this history showed so far
+vars == <<types, before, flushed, srcSeen>>
 tvars == <<vars, l>>
 ASSUME TLCSet(1, 0)
 Ev(e) == l <= Len(Trace) /\ Trace[l].ev = e /\ l' = l + 1
@@ -22,8 +23,8 @@ BlocksOf(list) == [i \in 1..Len(list) |-> BlockOf(list[i])]
 \* JSON: {"1":"sum",...} -> [1 |-> "sum", ...]  (field ids 0..9)
 TypesOf(j) == [f \in {x \in 0..9 : ToString(x) \in DOMAIN j} |-> j[ToString(f)]]
 
-TraceInit == l = 1 /\ types = EmptyF /\ before = EmptyF /\ flushed = EmptyF
-TReset == Ev("Reset") /\ types' = TypesOf(Line.types) /\ before' = EmptyF /\ flushed' = EmptyF
+TraceInit == l = 1 /\ types = EmptyF /\ before = EmptyF /\ flushed = EmptyF /\ srcSeen = {}
+TReset == Ev("Reset") /\ types' = TypesOf(Line.types) /\ before' = EmptyF /\ flushed' = EmptyF /\ srcSeen' = {}
 \* a flush: one block per metric goes through the real metricsdata flusher into one file
 MetricKey(b) == ToString(b.metric)
 TFlush ==
@@ -32,7 +33,7 @@ TFlush ==
                    (IF m \in DOMAIN flushed THEN flushed[m] ELSE << >>)
                    \o SelectSeq([i \in 1..Len(Line.blocks) |-> IF MetricKey(Line.blocks[i]) = m THEN BlockOf(Line.blocks[i].cells) ELSE {}],
                                 LAMBDA b : b # {})]
-  /\ UNCHANGED <<types, before>>
+  /\ UNCHANGED <<types, before, srcSeen>>
 \* what a reader observes of a metric is the reference merge of everything that was flushed for it -- before a
 \* compaction (the files as the flusher wrote them) and after it
 \* The key sets are compared first, straight from the logged cell lists (linear in the number of cells).  This is a
@@ -46,7 +47,7 @@ ReadsAsFlushed(blocks) ==
   /\ DOMAIN blocks = DOMAIN flushed
   /\ \A m \in DOMAIN flushed : ListKeys(blocks[m]) = AllKeys(flushed[m])
   /\ \A m \in DOMAIN flushed : CompactionOK(flushed[m], types, RefMerge(BlocksOf(blocks[m]), types))
-TBefore == Ev("Before") /\ ReadsAsFlushed(Line.blocks) /\ before' = Line.blocks /\ UNCHANGED <<types, flushed>>
+TBefore == Ev("Before") /\ ReadsAsFlushed(Line.blocks) /\ before' = Line.blocks /\ UNCHANGED <<types, flushed, srcSeen>>
 
 \* after a compaction every metric reads as the reference merge of what it read before;
 \* the output may be split over several blocks (files): the blocks read after are merged again (cell-wise)
@@ -63,15 +64,16 @@ TAfter ==
   /\ UNCHANGED vars
 
 \* rollup: target cells = rollup of the source blocks (exactly once)
-TTypes == Ev("Types") /\ types' = TypesOf(Line.types) /\ UNCHANGED <<before, flushed>>
+TTypes == Ev("Types") /\ types' = TypesOf(Line.types) /\ UNCHANGED <<before, flushed, srcSeen>>
 TRollup ==
   /\ Ev("Rollup")
   /\ LET src == BlocksOf(Line.source)
          tgt == BlocksOf(Line.targetblocks)
-     IN /\ RollupOK(src, types, Line.base, Line.ratio, RefMerge(tgt, types))
+     IN /\ RollupOKHist(src, types, Line.base, Line.ratio, RefMerge(tgt, types), srcSeen) = TRUE
         \* all of it in the target family (segment / family) that contains the timestamps
         /\ \A i \in 1..Len(Line.where) : Line.where[i] = Line.wantfamily
-  /\ UNCHANGED vars
+        /\ srcSeen' = srcSeen \cup RollupPairs(src, Line.base, Line.ratio)
+  /\ UNCHANGED <<types, before, flushed>>
 
 \* rollup of several source families (days, hours) -- every target family of the target interval is judged: it holds
 \* the reference rollup of ALL source families whose timestamps it contains (each with its own base slot), every source
